@@ -18,7 +18,7 @@ use serde_json::{json, Value};
 use std::io::Write;
 
 fn registry() -> Vec<&'static dyn Check> {
-    vec![&checks_l::C02, &checks_l::C03, &checks_l::C05, &checks_l::C04, &rig_c::C20, &checks_n::C01, &checks_n::C07, &checks_n::C06, &checks_n::C08, &checks_n::C19, &checks_n::C09, &checks_n::C10, &checks_nm::C11, &checks_nm::C12, &checks_nm::C13, &checks_nc::C14, &checks_nc::C15, &checks_auth::C16]
+    vec![&checks_l::C02, &checks_l::C03, &checks_l::C05, &checks_l::C04, &rig_c::C20, &checks_n::C01, &checks_n::C07, &checks_n::C06, &checks_n::C08, &checks_n::C19, &checks_n::C09, &checks_n::C10, &checks_nm::C11, &checks_nm::C12, &checks_nm::C13, &checks_nc::C14, &checks_nc::C15, &checks_auth::C16, &checks_auth::C17]
 }
 
 fn find(id: &str) -> &'static dyn Check {
